@@ -21,3 +21,10 @@ TABLE["C14"] = dict(engine="simworld", technique="property-based testing: genera
     text="Union of the mailbox-world generators plus a directed part that races code entry against closures the wormhole starts itself. The five unhandled (state,input) pairs this found on the pinned tree were repaired in repo commit 18797ca (fix:) and are kept as regression replays.",
     note=SIM_NOTE)
 
+
+TABLE["C01"] = dict(engine="simworld", technique="property-based testing: Hypothesis-generated code pairs (NFC/NFD spellings, one-character edits, case, nameplate, appid), entry methods and schedules; oracle = independent NFC equality decides agreement (verifier/key/derive_key equality) vs. total silence + WrongPasswordError",
+    text="Two real clients are driven with generated code pairs through set_code / allocate_code / input_code (incl. peer PAKE before local code); a message-level man-in-the-middle forces a meeting where nameplate or appid differ. 'same' is computed by the harness with unicodedata, independently of util.to_bytes.",
+    note=SIM_NOTE + " SPAKE2/NaCl are trusted; only the binding structure is tested.")
+TABLE["C02"] = dict(engine="simworld", technique="property-based testing: generated tamper programs (flip/truncate/extend/relabel phase+side/reflect/cross-phase replay/inject/fake PAKE/duplicate/replay/third participant) at tape-chosen positions + an enumerated single-operation sweep; behavioural oracle: delivered is a prefix of the peer's sends, versions exact and once",
+    text="Hypothesis search over 1-4 operation programs plus a deterministic sweep of every operation x every even step of a fixed 3+3 exchange and replay/dup/cross-phase/reflect after a 40-message history (exhaustive for that sub-space).",
+    note=SIM_NOTE + " Structural manipulations only; no cryptanalysis.")
